@@ -43,6 +43,15 @@ GFId == Op(3, Diag3(R1, R1, R1), 0)
 \* phase shift exp(i phi n), phi = k*pi/4
 GPS(k) == Op(3, Diag3(RS2, E8(k), E8(2*k)), 1)
 
+\* generators of displacement and squeezing on the integer lattice alpha, zeta = p + i q (levels 0..2):
+\*   D(alpha) = exp(alpha a^dagger - conj(alpha) a),   S(zeta) = exp((conj(zeta) a^2 - zeta a^dagger^2) / 2)
+\* The exponentials are transcendental, but d/d(eps) of D(eps alpha), S(eps zeta) at eps = 0 is exactly the generator,
+\* which fixes every sign / conjugation convention; the harness compares it with a symmetric finite difference.
+ZLat(p, q) == <<p, 0, q, 0>>
+GDispGen(p, q) == Op(3, MatAdd(MatScale(ZLat(p, q), GCre.m, 3), MatScale(RNeg(RConj(ZLat(p, q))), GAnn.m, 3), 3), 0)
+GSqGen(p, q) == Op(3, MatAdd(MatScale(RConj(ZLat(p, q)), MatMul(GAnn.m, GAnn.m, 3), 3),
+                             MatScale(RNeg(ZLat(p, q)), MatMul(GCre.m, GCre.m, 3), 3), 3), 2)     \* (...)/2
+
 (* beam splitter on two modes with at most two photons in total, from the SU(2) mode
    transformation  a^dagger -> cos(eta) a^dagger + i sin(eta) b^dagger,
                    b^dagger -> i sin(eta) a^dagger + cos(eta) b^dagger     (eta = k*pi/4).
